@@ -2,6 +2,7 @@ package main
 
 import (
 	"fmt"
+	"strings"
 	"sync"
 
 	"github.com/ethereum/go-ethereum/crypto"
@@ -40,6 +41,14 @@ func key(name string) keyPair {
 		}
 		comp := crypto.CompressPubkey(&pk.PublicKey)
 		if comp[0] != 0x02 {
+			continue
+		}
+		// names ending in "-NL" / "-CR" get a public key whose LAST byte is a line feed / carriage return (key files
+		// hold raw bytes; whatever treats them as text must not lose these)
+		if strings.HasSuffix(name, "-NL") && comp[32] != 0x0a {
+			continue
+		}
+		if strings.HasSuffix(name, "-CR") && comp[32] != 0x0d {
 			continue
 		}
 		var k keyPair
